@@ -76,7 +76,7 @@ _leaf("fd_dtls_ccs_alert", ["parse_dtls_message_changecipherspec", "parse_dtls_m
 _leaf("fd_dtls_is_fragment", "DTLSMessage::is_fragment", "all header field values, three body shapes", "fd", True)
 _leaf("leaf_dtls_hvr", "parse_dtls_hello_verify_request", "input <= 8 bytes")
 _leaf("leaf_dtls_fragment", "parse_dtls_fragment", "input <= 6 bytes (body is length-independent)")
-_leaf("mod_dtls_client_hello", "parse_dtls_client_hello (list helpers replaced by their contract stubs)", "input <= 52 bytes, all lengths symbolic (cookie 0..~10 reachable)", "mod")
+_leaf("mod_dtls_client_hello", "parse_dtls_client_hello (list helpers replaced by their contract stubs)", "input <= 80 bytes, all lengths symbolic (cookie up to 40 bytes, session id 0..32 reachable)", "mod")
 _leaf("leaf_dh_params", "parse_dh_params / ServerDHParams::parse", "input <= 10 bytes")
 _leaf("leaf_digitally_signed", ["parse_digitally_signed", "parse_digitally_signed_old"], "input <= 8 bytes")
 _leaf("leaf_ec_parameters", ["parse_ec_parameters", "ECParametersContent::parse", "ExplicitPrimeContent::parse"], "input <= 10 bytes, all 256 curve types")
@@ -192,9 +192,9 @@ PROPS = {
         verus=["dispatch_hs", "bodies", "bodies2"],
         kani=[dict(quick=["leaf_hs_ske", "leaf_hs_serverdone", "leaf_hs_certverify", "leaf_hs_cke", "leaf_hs_finished", "fd_hs_hello_request", "fd_hs_key_update",
                           "leaf_hs_newsessionticket", "leaf_hs_hello_retry_request", "leaf_hs_server_hello_msg", "leaf_hs_server_hello", "leaf_hs_certificatestatus",
-                          "leaf_hs_next_protocol", "leaf_hs_certificate", "mod_client_hello", "leaf_hs_client_hello_sid33", "leaf_cipher_suites", "leaf_compressions",
+                          "leaf_hs_next_protocol", "leaf_hs_certificate", "mod_client_hello", "mod_client_hello_long", "leaf_hs_client_hello_sid33", "leaf_cipher_suites", "leaf_compressions",
                           "shim_be", "shim_take", "shim_length_data", "shim_opt_cond"],
-                   thorough=["leaf_hs_certificate_request", "mod_client_hello_long"], timeout=900, timeout_thorough=2400)],
+                   thorough=["leaf_hs_certificate_request"], timeout=900, timeout_thorough=2400)],
         paired={"dispatch_hs": []},
         explanation="see level_text",
     ),
